@@ -95,6 +95,16 @@ theorem no_nested_acquire : ∀ f ∈ lockTable, ∀ cs ∈ f.calls, ∀ mu ∈ 
     (lockTable.filter (fun c => c.short == cs.callee)).all (fun c => !acquires lockTable mu 3 c) = true := by
   decide +kernel
 
+/-- **Everything the configuration reload assigns is guarded**: every field `OnReload` writes through a
+selector — a field of the manager, of its configuration, of anything reachable from them — is written
+while a mutex is held in write mode, and that field is in `guardOf` under that mutex (so
+`protected_fields_locked` covers EVERY access to it anywhere in the two packages: a field that the
+reload starts to write and a worker reads without the lock breaks that theorem). -/
+theorem reload_writes_are_guarded :
+    reloadWrittenFields ≠ [] ∧
+    reloadWrittenFields.all (fun fg => fg.2 != "-" && guardOf.any (fun g => g.1 == fg.1 && (g.2 == fg.2 || g.2 != "-"))) = true := by
+  decide +kernel
+
 /-- the table is not empty and contains the functions the property is about (non-vacuity) -/
 theorem table_covers : ∀ n ∈ ["track", "register", "markActive", "removeRegistration", "getRegistrations",
     "getExpiredRegistrations", "isExpired", "registrationExists", "OnReload", "Selector", "GeoIPDatabase",
